@@ -6,7 +6,6 @@ import (
 	"net/http"
 	"net/url"
 	"strconv"
-	"time"
 
 	"google.golang.org/grpc"
 	"google.golang.org/grpc/codes"
@@ -223,28 +222,6 @@ func (b *vfHoldBody) Close() error {
 		close(b.closed)
 	}
 	return nil
-}
-
-// vfWatchdog runs f; natively a hang (no return within the limit) is reported the way the engine
-// reports it: as a deadlock.
-func vfWatchdog(f func()) {
-	if vfSymbolic() {
-		f()
-		return
-	}
-	done := make(chan interface{}, 1)
-	go func() {
-		defer func() { done <- recover() }()
-		f()
-	}()
-	select {
-	case r := <-done:
-		if r != nil {
-			panic(r)
-		}
-	case <-time.After(8 * time.Second):
-		panic(vfCheckFailed{"deadlock: the call did not complete"})
-	}
 }
 
 func vfProtoStr(field byte, s string) []byte {
